@@ -285,6 +285,10 @@ def form_cases(r, n, forms=None, adversarial_every=0, oks=("ok",), hands=("ready
         pid = r.choice(pids or PIDS_OK)
         out.append({"form": form, "fields": fs, "pid": pid, "line": build(form, fs),
                     "ok": r.choice(list(oks)), "h": r.choice(list(hands))})
+        if r.below(12) == 0:
+            # sshd repeats itself (another failed attempt, the same certificate offered again): the very
+            # same record once more, right away
+            out.append(dict(out[-1]))
     return out
 
 
